@@ -2,6 +2,7 @@ package main
 
 import (
 	"fmt"
+	"path/filepath"
 	"strings"
 
 	"github.com/buildbuildio/pebbles/executor"
@@ -93,6 +94,12 @@ func driveC01(seed int64, tier, out, replay string) {
 				}
 				cases = append(cases, fedCase{WorldSeed: ws, OpSeed: rng.Int63(), Cfg: cfgs[(i+j)%len(cfgs)], Domain: dom})
 			}
+		}
+	}
+	// the corpus of earlier failures (repaired defects) runs first
+	if replay == "" && knownPath != "" {
+		if cp := filepath.Join(filepath.Dir(knownPath), "corpus", "C01.json"); fileExists(cp) {
+			cases = append(loadReplayCases[fedCase](cp), cases...)
 		}
 	}
 	// listed findings: replayed on the hand-written federation
